@@ -15,9 +15,16 @@ CHECK = {
          'it, the persisted last header (height index of the database) and a key written in the same batch. The same oracle runs inside (a) on every '
          'LastBlock/GetLastBlock/getLastBlock answer (plus the state diff of the block), and 0-2 live subscribers of EventBlockNew/EventBlockDelete '
          'check that an announced block is readable and on the chain and a deleted one is gone. '
+         '(g) linearizability of the staged store on SHARED keys: 20-80 rounds per case, each a fresh diffdb staged store over the database as the previous round '
+         'committed it, 2-8 goroutines doing Get/Has/Set/Del/Range/Iterate (8-50 calls each) on 2-16 keys (a quarter to all of them stored) through the parent and '
+         '1-4 WithPrefix views that address the same keys (view per module prefix, sibling twin, nested view, views made for one call), multi-writer or single-writer '
+         'per key, then reads at quiescence, Commit, Write and a read of the database; the store is handed to diffdb behind a latency-only wrapper that parks the '
+         'Get/Has/Set/Del which reads a stored key from the database inside that read (0/50/200/500 us or until a write of that key returns) while the other '
+         'goroutines turn their next call into a Set/Del/Get of that key. '
          'GOMAXPROCS 2/4/8/16 and yield injection (Gosched / microsecond sleeps) are drawn per goroutine. Non-trivial = (a) >= 4 readers, >= 200 writer '
          'operations and >= 1000 bulk lookups in one run; (b)/(d) >= 4 goroutines and >= 2000 operations; (c) >= 4 goroutines, >= 500 deliveries and '
-         '>= 4 unsubscribes; (e) at least one sync converged; (f) >= 4 readers, >= 100 writer operations, >= 1000 tip observations and >= 20 tip reads '
+         '>= 4 unsubscribes; (e) at least one sync converged; (g) >= 3 goroutines, >= 1000 calls and >= 10 stored keys whose first Get/Has (called before any call on that key '
+         'had returned, so it can be the one that reads the store) overlapped a Set/Del of the key by another goroutine; (f) >= 4 readers, >= 100 writer operations, >= 1000 tip observations and >= 20 tip reads '
          'taken while the writer was inside AddBlock/RemoveBlock. Distinct by digest of the workload.',
  'level_text': 'Race detector plus timing-robust functional oracles on generated concurrent workloads against the real objects: no race report touching '
                'pkg/; every tip a reader obtains is byte-identical to a block the writer built (ID = hash of header, payload matches root) and is committed: '
@@ -25,7 +32,12 @@ CHECK = {
                'last header and same-batch state are readable with exactly its content (the writer flags a block before it removes it and never reuses an ID, '
                'so the exemption cannot hide a tip published before its batch was written), and once its data is gone the tip API must not answer it again; '
                'EventBlockNew implies the block is readable and on the chain, EventBlockDelete that it is gone; bulk lookups '
-               'over stable items return each requested item exactly once; pool/emitter/store invariants that hold under every interleaving; a hang is '
+               'over stable items return each requested item exactly once; pool/emitter/store invariants that hold under every interleaving; '
+               'staged store on shared keys: with every call stamped before and after on one atomic counter, the writes and reads of each key (Get, Has, every element '
+               'a Range/Iterate returned, every key of the request it proved absent, the reads at quiescence and the database after Commit) form a linearizable history of '
+               'one register starting from the stored content (exact Wing-Gong/Lowe search per key; reported first as stale-read when every possible source of a read '
+               'had been overwritten by a write that returned before the read was called = lost staged write / revived delete), a single writer reads its own latest '
+               'write and commits its last one, and the diff of Commit reverted on the committed content gives the content before the round; a hang is '
                'reported only with a goroutine dump proving a lock cycle.',
  'level_note': 'The seed fixes the workload (goroutine counts, operation mix, sizes, yield injection), not the Go scheduler: a race or lock cycle is found '
                'only if the run happens to execute it, and a found one may not reproduce from its seed (the report text / goroutine dump is the '
@@ -33,17 +45,19 @@ CHECK = {
                'the generated mixes (tip reads, the three bulk lookups, emptying the block cache, getBlocksFromId on the moving tip, the remove-path half of the '
                'published-means-committed oracle). The ordering oracles see a too-early publication only if a reader runs inside the window; measured hit rate '
                'for AddBlock publishing before writing: 30-250 violating observations per case, every case.',
- 'technique': 'property-based stress testing (rapid-drawn concurrent workloads) under the Go race detector with invariant / multiset / model / publication-order oracles',
+ 'technique': 'property-based stress testing (rapid-drawn concurrent workloads) under the Go race detector with invariant / multiset / model / publication-order / linearizability oracles',
  'assumptions': ['fake deterministic application (harness/node)', 'loopback networking for the started p2p connection',
                  'race reports without a frame of github.com/LiskHQ/lisk-engine/pkg/ are noted, not judged',
                  'blocks of the churn zone that are not tips are checked for completeness as an observation only (the statement names tips)'],
  'quick': [{'pkg': 'c20', 'race': True, 'run': 'TestChainReadersWriter', 'checks': 2, 'shards': 2, 'timeout': 1500, 'shrinktime': '15s', 'gomaxprocs': 4},
            {'pkg': 'c20', 'race': True, 'run': 'TestTipIsCommitted', 'checks': 6, 'timeout': 1500, 'shrinktime': '15s', 'gomaxprocs': 4},
            {'pkg': 'c20', 'race': True, 'run': 'TestCertificatePool|TestEventEmitter|TestStagedStoreViews', 'checks': 10, 'timeout': 1500, 'shrinktime': '15s', 'gomaxprocs': 4},
+           {'pkg': 'c20', 'race': True, 'run': 'TestStagedStoreLinearizable', 'checks': 12, 'timeout': 1500, 'shrinktime': '15s', 'gomaxprocs': 4},
            {'pkg': 'c20', 'race': True, 'run': 'TestRegress', 'timeout': 1500, 'gomaxprocs': 4}],
  'thorough': [{'pkg': 'c20', 'race': True, 'run': 'TestChainReadersWriter', 'checks': 30, 'shards': 4, 'timeout': 3000, 'shrinktime': '30s', 'gomaxprocs': 2},
               {'pkg': 'c20', 'race': True, 'run': 'TestTipIsCommitted', 'checks': 40, 'shards': 2, 'timeout': 3000, 'shrinktime': '30s', 'gomaxprocs': 2},
               {'pkg': 'c20', 'race': True, 'run': 'TestCertificatePool|TestEventEmitter|TestStagedStoreViews', 'checks': 25, 'shards': 2, 'timeout': 3000, 'shrinktime': '30s', 'gomaxprocs': 2},
+              {'pkg': 'c20', 'race': True, 'run': 'TestStagedStoreLinearizable', 'checks': 60, 'shards': 2, 'timeout': 3000, 'shrinktime': '30s', 'gomaxprocs': 2},
               {'pkg': 'c20', 'race': True, 'run': 'TestBlockSyncPolling', 'checks': 12, 'shards': 2, 'timeout': 3000, 'shrinktime': '30s', 'gomaxprocs': 2},
               {'pkg': 'c20', 'race': True, 'run': 'TestRegress', 'timeout': 1500, 'gomaxprocs': 2}],
  'replay': [{'pkg': 'c20', 'race': True, 'run': 'TestReplayWorkload', 'timeout': 1500}],
